@@ -56,7 +56,7 @@ def _run_config(args):
                 return r
             return h(ctx)
 
-        res = core.explore(wrapped, max_paths=cfg.get("max_paths", 100000),
+        res = core.explore(wrapped, path_alarm_s=cfg.get("path_alarm_s", 300 if cfg.get("timeout_ms", 15000) <= 15000 else 1800), max_paths=cfg.get("max_paths", 100000),
                            timeout_ms=cfg.get("timeout_ms", 15000), seed=seed,
                            deadline=min(t0 + budget_s, global_deadline) if global_deadline else t0 + budget_s, prefixes=prefixes,
                            stop_when_pending=(cfg.get("split") if prefixes is None else None))
